@@ -31,6 +31,7 @@ struct Plan {
 std::string plan_to_json(const Plan& p);
 bool plan_from_json(const std::string& text, Plan& p, std::string& err);
 bool plan_load(const std::string& path, Plan& p, std::string& err);
+bool plan_load_seq(const std::string& path, std::vector<Plan>& out, std::string& err);
 bool plan_save(const std::string& path, const Plan& p);
 uint64_t plan_shape_hash(const Plan& p);  // op kinds + fault codes (not arguments)
 
